@@ -17,6 +17,10 @@ CLAIMED = {
    text="Lean 4 theorems: the look-ahead chunk reader emits, for every file length and every short-read schedule, chunks whose concatenation is the file, exactly the last one flagged 'no more', none empty, all within the maximum; the boss's chunk relay succeeds iff the stream is terminated and totals the listed size (any growth/shrink => error) and forwards exactly the consumed chunks with the time stamp on the last; the largest chunk fits the frame buffers (constants extracted from the source on every run). Tie: real GetFileContent / CreateOrUpdateFile on real files of every boundary length (chunk sequence = model, CRC per chunk, bytes+mtime read back) and the real sync() relaying scripted growing/shrinking sources.",
    note="Trusted: Lean kernel; host read(2)/write(2) (regular files give full reads: short-read schedules are covered by the theorem only); extraction of the four chunk constants and the buffer size; differential tie bounded by the lengths listed in the evidence.",
    technique="Lean 4 proof (functional induction over the reader, induction over the chunk stream) + L3/L2 correspondence", design="§3 C11"),
+ 'C15': dict(
+   text="Lean 4 theorems: the key text round trip holds for all 2^128 keys (per-digit lemma lifted by induction over the 16 bytes, leading zero bytes included); in the handshake-loop machine, over *any* message sequence of the two reader threads, a step writes the key only on stdout's started-line carrying exactly the local version, any other version ends the loop with nothing written, success implies the key was handed over; the launch/deploy/relaunch decision uploads only with consent (ok/force/prompt answered Deploy), 'error' or a cancelled prompt uploads nothing and fails, exactly one relaunch after a deploy (exhaustive case analysis). Tie: the two real key-text expressions on 2000+ keys incl. every count of leading zero bytes; the CLI against fake ssh/scp with a real --doer process over {absent, same, other version, broken} x {prompt(Deploy/cancel), error, ok, force}, one or both doers remote: launches, uploads, exit status = model; a wrong-version doer's stdin stays empty.",
+   note="Trusted: Lean kernel; OsRng freshness; the fake ssh/scp (bash) stand in for real ssh; the reader-thread message abstraction is hand-modelled (tied by the L4 matrix); interleavings of handshake lines with noise are covered by the theorem over arbitrary message sequences, sampled only through the real process's own timing.",
+   technique="Lean 4 proof (induction over bytes / over message sequences, exhaustive case analysis) + L1 and fake-ssh L4 correspondence", design="§3 C15"),
  'C16': dict(
    text="Lean 4: the five all-destructive blocks, flag overrides and defaults of resolve_spec are extracted from the source text into Generated.fieldRules on every run; C16_precedence is proved by kernel evaluation over the whole finite product (5 fields x {absent,4}^3) against the documented rule and defaults; filters replace; deploy flag > spec > default; spec file == SRC DEST; malformed spec values (non-dictionary root, unknown/non-string keys, wrong types, bad enum values, missing/empty src/dest) are rejected by the model of parse_spec_file over an abstract YAML value. Tie: real clap + yaml-rust + resolve_spec on the exhaustive per-field product, random joint assignments with several syncs, mutated spec texts and path-argument strings, exact equality of the effective spec; independent documented-precedence oracle.",
    note="Trusted: Lean kernel; yaml-rust (text -> value) and clap (argv -> options) as they are; the Defaults extractor (fails closed: an unrecognised block becomes a rule no theorem accepts).",
